@@ -31,6 +31,12 @@ type Unit struct {
 	Extra    []string  `json:"extra_packages"`
 	Rewrites []Rewrite `json:"native_rewrites"`
 	NowHooks []string  `json:"now_hook_imports"` // import paths of other packages whose time.Now calls are rewritten
+	Shims    []Shim    `json:"shims"`            // extra files injected into other packages (engine and native)
+}
+
+type Shim struct {
+	Dir  string `json:"dir"`
+	File string `json:"file"`
 }
 
 type Config struct {
@@ -146,6 +152,13 @@ func overlayFor(hdir string, u Unit, overlay map[string][]byte) {
 		overlay[filepath.Join(repoDir, u.Dir, "zz_verif_"+filepath.Base(f))] = data
 	}
 	overlay[filepath.Join(repoDir, u.Dir, "zz_verif_rt.go")] = prelude("prelude.go.txt", pkg)
+	for _, sh := range u.Shims {
+		data, err := os.ReadFile(filepath.Join(hdir, sh.File))
+		if err != nil {
+			fatal("ENGINE-CONFIG: %v", err)
+		}
+		overlay[filepath.Join(repoDir, sh.Dir, "zz_verif_"+filepath.Base(sh.File))] = data
+	}
 }
 
 type EntryResult struct {
@@ -386,6 +399,9 @@ func nativeRun(hdir string, u Unit, scripts map[string]*Script) (map[string]*Nat
 	replace := map[string]string{}
 	for _, f := range u.Files {
 		replace[filepath.Join(repoDir, u.Dir, "zz_verif_"+filepath.Base(f))] = filepath.Join(hdir, f)
+	}
+	for _, sh := range u.Shims {
+		replace[filepath.Join(repoDir, sh.Dir, "zz_verif_"+filepath.Base(sh.File))] = filepath.Join(hdir, sh.File)
 	}
 	pre := filepath.Join(tmp, "prelude.go")
 	os.WriteFile(pre, prelude("prelude.go.txt", pkg), 0644)
